@@ -9,6 +9,7 @@ CONSTANTS
   MaxTicks = 2
   SegCap = 2
   PeriodicAdv = FALSE
+  PeriodicFix = TRUE
   EnqAnywhere = TRUE
   Record = FALSE
 INVARIANTS TypeOK OnlyLegalRemovals AcceptedOnly204InOrder DropOnly400 PurgeOnlyOld QueueInOrder PostInOrder WaitFollowsRule NoStrandedBatch
